@@ -125,6 +125,18 @@ let handle kind a =
         match index_and_query_delivered cap f sc name s e with
         | (SOk, r) -> fmt_qres r
         | (SNoFuel, _) -> "NoFuel") (parse_regions a.(3))))
+  | "qdp" ->
+      let f = bytes_of_hex a.(0) in
+      let cap = nat_of_int (int_of_string a.(1)) in
+      let sc = parse_script a.(2) in
+      let fmt_pos = function Some n -> dec_of_n n | None -> "-" in
+      Some (String.concat "," (List.map (fun (name, (s, e)) ->
+        let (cr, cp) = index_and_query_pos_closed f name s e in
+        match index_and_query_delivered_pos cap f sc name s e with
+        | ((SOk, r), p) ->
+            if r = cr && p = cp then fmt_qres r ^ "@" ^ fmt_pos p
+            else "closed-form-differs:" ^ fmt_qres cr ^ "@" ^ fmt_pos cp
+        | ((SNoFuel, _), _) -> "NoFuel") (parse_regions a.(3))))
   | "wr" | "wre" ->
       let w = nat_of_int (int_of_string a.(0)) in
       let recs = if a.(1) = "_" then [] else split_on ';' a.(1) in
